@@ -24,6 +24,7 @@ EXPLANATION = (
     "(membership test or .get with a default): undefined names fall back instead of raising; (5) AttrMap.render selects the focus map only under `focus and _focus_map is not None` and "
     "applies the map to a fresh composite; (7) attribute remaps compose with .get(k, default), so a remap to None is kept; (8) FRESHLIST: applying a map never rewrites a shard list shared with the wrapped widget's "
     "cached canvas (otherwise the wrapper's attributes are baked into the child and survive a later set_attr_map); (6) CUTATTR: the space replacing a cut wide character keeps the cut character's attribute."
+    ' Added after seed round 3: (9) FOCUS-FWD over all widget modules - a focus map further down is applied exactly when the widget is in focus because every container / decoration passes the flag on; (10) ACCUM on the rle walkers that cut attribute runs.'
 )
 NOT_DECIDED = "Run-length alignment of attributes through layout and encoding, composition order of nested maps as a value statement, the SGR text produced for every AttrSpec and its decoding."
 ASSUMPTIONS = []
